@@ -236,10 +236,21 @@ class Inliner:
         """(helper, bound?) — bound = first parameter is the receiver."""
         f = call.func
         if isinstance(f, ast.Name):
+            # a function defined inside the function being flattened (a local closure)
+            loc = getattr(self, "_local_defs", {}).get(f.id)
+            if loc is not None and f.id not in self.exclude:
+                return loc, False
             if (_is_private(f.id) or f.id in self.also) and f.id not in self.exclude:
                 fn = self._module_functions().get(f.id)
                 if fn is not None:
                     return fn, False
+                # a private helper imported from another module of the package: its own module's constants are written in
+                imp = self.sf.imports.get(f.id) if self.sf is not None else None
+                if imp and imp[1] and imp[0] in self.repo.by_mod:
+                    other = self.repo.by_mod[imp[0]]
+                    for st in other.tree.body:
+                        if isinstance(st, ast.FunctionDef) and st.name == imp[1]:
+                            return self._foreign(st, other), False
             return None
         if isinstance(f, ast.Attribute) and self.ci is not None:
             name = f.attr
@@ -272,6 +283,35 @@ class Inliner:
                 return fn, False
             return fn, True
         return None
+
+    def _foreign(self, fn: ast.FunctionDef, other: SourceFile) -> ast.FunctionDef:
+        """A helper of another module, with that module's struct constants and foldable module-level names written in (they
+        would not resolve in the caller's module)."""
+        cache = self.__dict__.setdefault("_foreign_cache", {})
+        key = (other.rel, fn.name)
+        if key in cache:
+            return cache[key]
+        try:
+            new = desugar_structs(self.repo, None, other, fn)
+        except Exception:
+            new = copy.deepcopy(fn)
+        bound = {a.arg for a in new.args.args} | {n.id for n in ast.walk(new) if isinstance(n, ast.Name) and isinstance(n.ctx, (ast.Store, ast.Del))}
+        repo = self.repo
+
+        class K(ast.NodeTransformer):
+            def visit_Name(self, node):
+                if isinstance(node.ctx, ast.Load) and node.id not in bound:
+                    try:
+                        v = repo.fold(node, sf=other)
+                        if isinstance(v, (int, str, bytes, bool)) or v is None:
+                            return ast.copy_location(ast.Constant(value=v), node)
+                    except Exception:
+                        pass
+                return node
+        new = K().visit(new)
+        ast.fix_missing_locations(new)
+        cache[key] = new
+        return new
 
     def resolve_property(self, node: ast.Attribute) -> Optional[ast.expr]:
         if self.ci is None or norm(node.value) != "self" or not isinstance(node.ctx, ast.Load):
@@ -560,6 +600,13 @@ class Inliner:
     def flatten(self, fn: ast.FunctionDef) -> ast.FunctionDef:
         new = copy.deepcopy(fn)
         self.caller_names = {n.id for n in ast.walk(new) if isinstance(n, ast.Name)} | {a.arg for a in new.args.args}
+        # closures defined directly in the body and bound only by their `def`
+        stores: Dict[str, int] = {}
+        for n in ast.walk(new):
+            if isinstance(n, ast.Name) and isinstance(n.ctx, (ast.Store, ast.Del)):
+                stores[n.id] = stores.get(n.id, 0) + 1
+        self._local_defs = {st.name: st for st in new.body if isinstance(st, ast.FunctionDef) and not stores.get(st.name)
+                            and not st.decorator_list and not any(isinstance(x, (ast.Nonlocal, ast.Global)) for x in ast.walk(st))}
         new.body = self._block(new.body, self.depth) or [ast.Pass()]
         ast.fix_missing_locations(new)
         number(new)
@@ -643,13 +690,19 @@ def _always_returns(stmts: List[ast.stmt]) -> bool:
     return False
 
 
-def flatten(repo: Repo, ci: Optional[ClassInfo], fn: ast.FunctionDef, sf: Optional[SourceFile] = None, depth: int = 3,
-            also: Iterable[str] = (), exclude: Iterable[str] = (), exact: bool = False) -> ast.FunctionDef:
+def _flatten_only(repo: Repo, ci: Optional[ClassInfo], fn: ast.FunctionDef, sf: Optional[SourceFile] = None, depth: int = 3,
+                  also: Iterable[str] = (), exclude: Iterable[str] = (), exact: bool = False) -> ast.FunctionDef:
     """Copy of `fn` with private helpers inlined (see module docstring).  Never raises: what cannot be inlined stays a call."""
     try:
         return Inliner(repo, ci, sf, depth, also, exclude, exact).flatten(fn)
     except RecursionError:
         return fn
+
+
+def flatten(repo: Repo, ci: Optional[ClassInfo], fn: ast.FunctionDef, sf: Optional[SourceFile] = None, depth: int = 3,
+            also: Iterable[str] = (), exclude: Iterable[str] = (), exact: bool = False) -> ast.FunctionDef:
+    """The normal form of `fn` (helpers inlined, constant tables unrolled, struct objects desugared); kept under its old name."""
+    return normalize(repo, ci, fn, sf, depth=depth, also=also, exclude=exclude, exact=exact)
 
 
 # ---------------------------------------------------------------------------------------------- unrolling
@@ -924,6 +977,18 @@ def unroll(fn: ast.FunctionDef, repo: Optional[Repo] = None, ci: Optional[ClassI
         env = dict(env)
         out: List[ast.stmt] = []
         for st in stmts:
+            # --- for x in (A if c else ()): BODY   reads as   if c: for x in A: BODY
+            if isinstance(st, ast.For) and not st.orelse and isinstance(st.iter, ast.IfExp):
+                def empty(x):
+                    return isinstance(x, (ast.Tuple, ast.List)) and not x.elts or (isinstance(x, ast.Constant) and x.value in ((), "", b""))
+                ie = st.iter
+                if empty(ie.orelse) or empty(ie.body):
+                    inner = copy.copy(st)
+                    inner.iter = ie.body if empty(ie.orelse) else ie.orelse
+                    test = ie.test if empty(ie.orelse) else _negate(copy.deepcopy(ie.test))
+                    wrapped = ast.copy_location(ast.If(test=test, body=[inner], orelse=[]), st)
+                    out.extend(block([wrapped], env))
+                    continue
             # --- loops over known elements
             if isinstance(st, ast.For) and not st.orelse:
                 it = expr_unroll(copy.deepcopy(st.iter), env)
@@ -1058,7 +1123,20 @@ def expand_aliases(fn: ast.FunctionDef) -> ast.FunctionDef:
         if isinstance(n, ast.Attribute) and isinstance(n.ctx, ast.Store):
             stored_chains.add(norm(n))
     alias: Dict[str, ast.expr] = {}
+    chain_stores: Dict[str, int] = {}
+    for n in ast.walk(new):
+        if isinstance(n, ast.Attribute) and isinstance(n.ctx, ast.Store):
+            chain_stores[norm(n)] = chain_stores.get(norm(n), 0) + 1
     for st in new.body:
+        # chunk = self._current = Chunk():  `chunk` abbreviates `self._current` from here on (both bound once)
+        if isinstance(st, ast.Assign) and len(st.targets) == 2:
+            names = [t for t in st.targets if isinstance(t, ast.Name)]
+            attrs = [t for t in st.targets if isinstance(t, ast.Attribute)]
+            if len(names) == 1 and len(attrs) == 1 and cnt.get(names[0].id) == 1 and names[0].id not in banned \
+                    and chain_stores.get(norm(attrs[0])) == 1 and norm(attrs[0]).startswith("self."):
+                alias[names[0].id] = ast.Attribute(value=attrs[0].value, attr=attrs[0].attr, ctx=ast.Load())
+                st.targets = attrs
+            continue
         if isinstance(st, ast.Assign) and len(st.targets) == 1 and isinstance(st.targets[0], ast.Name):
             nm, v = st.targets[0].id, st.value
             chain = v
@@ -1080,7 +1158,11 @@ def expand_aliases(fn: ast.FunctionDef) -> ast.FunctionDef:
 
 def normalize(repo: Repo, ci: Optional[ClassInfo], fn: ast.FunctionDef, sf: Optional[SourceFile] = None, aliases: bool = False, **kw) -> ast.FunctionDef:
     """flatten, then unroll (and, on request, expand attribute-chain aliases): the form in which rules read a function."""
-    out = unroll(flatten(repo, ci, fn, sf, **kw), repo, ci, sf)
+    out = unroll(_flatten_only(repo, ci, fn, sf, **kw), repo, ci, sf)
+    # unrolling a table of (tag, encoder, attribute) rows reveals calls of private helpers: read those through as well
+    again = _flatten_only(repo, ci, out, sf, **kw)
+    if ast.dump(again) != ast.dump(out):
+        out = unroll(again, repo, ci, sf)
     if aliases:
         changed = False
         for _ in range(3):          # project = self.object; modules = project.modules
